@@ -737,9 +737,15 @@ def _exec_api(case, res, log, probe, violation, check_state, check_round_trip, r
                     violation("liveness", "shipped NLBGS+Aitken did not converge from a bounded guess", float("inf"), 0.0,
                               {"op_index": opi, "lin": lin})
                     return
-                # a non-shipped solver that does not converge raises loudly: inconclusive, not wrong
+                # a non-shipped solver that does not converge raises loudly: inconclusive, not wrong. What it leaves
+                # in the vectors is an arbitrary (possibly huge) iterate, not a bounded guess: start over from a new
+                # Problem, as after a divergence (a 45-seed soak found the shipped solver handed the last iterate of a
+                # failed Newton run on the E,G x0.08 variant)
                 res["inconclusive"]["nonconv_%s" % nl] = res["inconclusive"].get("nonconv_%s" % nl, 0) + 1
-                # restart with the shipped pair from the same vectors
+                model = build(nl, lin)
+                model.set_point(points[cur])
+                guess_names = faults.cycle_and_state_vars(model)
+                store.clear()
                 continue
             rt, at = state_tol(nl)
             ok = check_state(model, ref_outputs(spec, points[cur]), "run_model[%s,%s]" % (nl, lin), rt, at)
